@@ -445,6 +445,55 @@ def make_machine(stats):
             if any(x is not y for x, y in zip(before, self.triple())):
                 self.fail("guard state after a guarded call with keyword arguments is not the state before it")
 
+        @rule(c=st.integers(0, 1), kind=st.sampled_from(["if0", "whileFalse", "if-float", "if-none", "if2", "elif-not-callable"]), outer=st.sampled_from(["if", "while"]))
+        def refused_block(self, c, kind, outer):
+            """inside an open _if / _while block the program tries to open another block with a condition the library refuses
+            (a public false / non-boolean / wrongly typed condition), catches the error and carries on: the refusal changes
+            neither the guard state nor the block stack, and the enclosing block closes as if nothing had happened"""
+            self.hist.append(["refused_block", c, kind, outer])
+            rt, br, bo = self.rt, self.ns.br, self.ns.bo
+            start = self.triple()
+            bv = br.BranchingValues()
+            bv.x = rt.PrivVal(1)
+            (br._if if outer == "if" else br._while)(bo.PrivValBool(c), bv)
+            before, depth = self.triple(), len(bv.stack)
+            try:
+                if kind == "if0":
+                    br._if(0, bv)
+                elif kind == "whileFalse":
+                    br._while(False, bv)
+                elif kind == "if-float":
+                    br._if(2.5, bv)
+                elif kind == "if-none":
+                    br._if(None, bv)
+                elif kind == "if2":
+                    br._if(2, bv)
+                else:
+                    br._elif(bo.PrivValBool(1), bv) if outer == "if" else br._if("x", bv)
+                refused = False
+            except Exception:
+                refused = True
+            if refused:
+                if any(a is not b for a, b in zip(before, self.triple())) or len(bv.stack) != depth:
+                    now = len(bv.stack)
+                    del bv.stack[:]
+                    self.fail("a refused attempt to open a block (%s) inside an open %s block changed the guard state or left something on the block stack (%d -> %d entries)" % (
+                        kind, outer, depth, now))
+                bv.x = rt.PrivVal(5)
+                (br._endif if outer == "if" else br._endwhile)(bv)
+                if any(a is not b for a, b in zip(start, self.triple())) or len(bv.stack) != 0:
+                    del bv.stack[:]
+                    self.fail("after a refused inner block (%s) the enclosing %s block did not end: guard state or block stack differ from before it was opened" % (kind, outer))
+                if bv.x.value != (5 if c else 1):
+                    self.fail("after a refused inner block (%s) the enclosing %s block (condition %d) left x = %r, expected %d" % (kind, outer, c, bv.x.value, 5 if c else 1))
+            else:
+                # accepted after all (e.g. a public true condition): close what was opened, innermost first
+                while len(bv.stack):
+                    top = bv.stack[-1]
+                    (br._endwhile if isinstance(top, br.WhileContext) else br._endif)(bv)
+                if any(a is not b for a, b in zip(start, self.triple())):
+                    self.fail("guard state after closing all blocks is not the state before they were opened")
+
         @precondition(lambda self: len(self.leaked) > 0)
         @rule()
         def collect_garbage(self):
@@ -612,7 +661,7 @@ def replay(case):
                 m.warnings_policy(h[1])
             elif h[0] == "collect_garbage":
                 m.collect_garbage()
-            elif h[0] in ("gen_start", "gen_step", "call_args"):
+            elif h[0] in ("gen_start", "gen_step", "call_args", "refused_block"):
                 getattr(m, h[0])(*h[1:])
             else:
                 raise core.HarnessError("C08 replay: unknown step %r" % (h[0],))
